@@ -29,8 +29,8 @@ LEVEL_TEXT = ('Coq theorems over an executable Gallina model of the state tracki
 LEVEL_NOTE = ('Trusted: Coq kernel, gen_tables.py, extraction + OCaml driver, the Python harness, the reference server as specification. '
               'The trace-level simulation theorem (induction over histories of any length with the lookup-level relation Inv, Inv => agree) is proved '
               'for the steps CONNECT, TOPIC, KICK (any victims), QUIT, NICK (incl. case-only and the bot\'s own), MODE (all accepted letters), CHGHOST, '
-              'WHO refresh, reconnect, PART (any channel list), single-target JOIN of another user, and the bot\'s own single-target JOIN into a channel nobody is on; '
-              'still outside: the bot joining a populated channel, NAMES refresh, multi-target JOIN lists -- those rest on the per-handler theorems plus the differential run.')
+              'WHO refresh, reconnect, PART and JOIN of other users (any channel list), and the bot\'s own JOIN (any target list) into channels nobody is on; '
+              'still outside: the bot joining a populated channel, NAMES refresh -- those rest on the per-handler theorems plus the differential run.')
 TECHNIQUE = 'Coq proof (induction over lists/states) + regenerated tables + extracted reference server and bot model run beside the real Irc object'
 EXPLANATION = 'C10: bot model coq/C10/Bot.v, reference server coq/C10/Spec.v; theorems in coq/C10/Props.v'
 
@@ -75,6 +75,17 @@ def _mv(v):
     if isinstance(v, int):
         return ['i', v]
     return ['s', str(v)]
+
+
+def aliases(irc):
+    """direct oracle clause: two channel names never share one record"""
+    seen, out = {}, []
+    for k, c in irc.state.channels.items():
+        if id(c) in seen:
+            out.append([str(seen[id(c)]), str(k)])
+        else:
+            seen[id(c)] = k
+    return out
 
 
 def impl_dump(irc):
@@ -207,8 +218,9 @@ def gen_history(rng, trig):
     chans = ['#a', '#Chan[1]', '&loc'][:rng.randint(1, 3)]
     fresh = ['zed', 'Yan{k}', 'xi~', 'w_w', 'Vic\\t']
     acts = [['connect', n, rng.choice(['u', 'ident', '~x']), rng.choice(['h.example', 'Host.EXAMPLE', '10.0.0.1'])] for n in base]
-    acts.append(['join', 'test', [rng.choice(chans)]])
+    acts.append(['join', 'test', rng.sample(chans, rng.randint(1, len(chans)))])
     nicks = list(base) + ['test']
+    fresh_no = [0]
     sp = lambda s: variant(rng, s) if rng.random() < 0.3 else s
     nick = lambda: sp(rng.choice(nicks))
     chan = lambda: sp(rng.choice(chans))
@@ -257,10 +269,35 @@ def gen_history(rng, trig):
             acts.append(['topic', nick(), chan(), rng.choice(['', 'hello world', ':x', 'Topic [1]', 'é'])])
         elif r < 0.85:
             acts.append(['chghost', nick(), rng.choice(['newu', '~y']), rng.choice(['new.host', 'Cloak/X'])])
-        elif r < 0.91:
+        elif r < 0.90:
             acts.append(['names', chan(), rng.random() < 0.5, rng.random() < 0.5])
-        elif r < 0.96:
+        elif r < 0.92:
             acts.append(['who', chan()])
+        elif r < 0.935:
+            # the bot's own multi-target JOIN of 2-3 channels nobody is on, then events confined to ONE of them each
+            new_chans = []
+            for _ in range(rng.randint(2, 3)):
+                fresh_no[0] += 1
+                new_chans.append(rng.choice(['#n%d', '&N%d', '#New[%d]']) % fresh_no[0])
+            acts.append(['join', 'test', new_chans])
+            chans.extend(new_chans)
+            others = [x for x in nicks if x != 'test'] or ['alice']
+            for c in new_chans:
+                k = rng.random()
+                who = rng.choice(others)
+                if k < 0.35:
+                    acts.append(['join', sp(who), [sp(c)]])
+                    acts.append(['mode', 'test', sp(c), [[True, rng.choice('ohv'), sp(who)]]])
+                elif k < 0.55:
+                    acts.append(['mode', 'test', sp(c), [[True, rng.choice('mntsi'), None], [True, 'b', '*!*@evil.%s' % c[1:]]]])
+                elif k < 0.75:
+                    acts.append(['topic', 'test', sp(c), 'topic of ' + c])
+                elif k < 0.85:
+                    acts.append(['join', sp(who), [sp(c)]])
+                    acts.append(['names', sp(c), True, rng.random() < 0.5])
+                else:
+                    acts.append(['join', sp(who), [sp(c)]])
+                    acts.append(['part', sp(who), [sp(c)]])
         elif r < 0.975:
             acts.append(['reset'])
             acts.append(['join', 'test', [rng.choice(chans)]])
@@ -352,6 +389,9 @@ def run_history(ctx, inp, out, record=True, stored=None):
                     diverged = True      # keep going: the direct oracle must still get its say
         mp_all = bool(inp['mp']) and all(a[2] for a in inp['acts'][:i + 1] if a[0] == 'names')
         diffs = view_diffs(impl_dump(irc), view, mp_all)
+        for a, k in aliases(irc):
+            diffs.append({'aspect': 'alias', 'chan': k, 'key': a, 'bot': "channel %s's record IS channel %s's record (one ChannelState under two names)" % (k, a),
+                          'server': 'two separate channels'})
         if diffs:
             recs.append({'step': i, 'diff': diffs,
                          'detail': 'after action %d %r: %s' % (i, inp['acts'][i], describe(diffs)),
@@ -496,6 +536,10 @@ def run_raw(ctx, inp, out, record=True):
                 diverged = True
         bad = self_leave_failure(before, m, d) if not (m[1] == 'RESET' and m[0] == '') else (
             'channels survive a reconnect' if d[2] else None)
+        if not bad:
+            al = aliases(irc)
+            if al:
+                bad = "channel %s's record is channel %s's record (one ChannelState object under two names)" % (al[0][1], al[0][0])
         if bad:
             return {'step': i, 'detail': bad}
     if ctx is not None and record:
@@ -517,6 +561,12 @@ def buildable(inp):
 
 # ---------------------------------------------------------------- corpus
 CORPUS = [
+    # the bot's own multi-target JOIN of untracked channels, then events confined to one channel each (seeded change C10_5:
+    # doJoin stored ONE ChannelState under every target of the JOIN)
+    {'op': 'hist', 'mp': True, 'uh': False, 'acts': [['connect', 'alice', 'u', 'h'], ['join', 'test', ['#a', '#b', '&c']],
+                                                    ['join', 'alice', ['#a']], ['mode', 'test', '#a', [[True, 'o', 'alice'], [True, 'm', None], [True, 'b', '*!*@evil']]],
+                                                    ['topic', 'test', '#b', 'topic of b'], ['names', '&c', True, False], ['part', 'alice', ['#a']],
+                                                    ['part', 'test', ['#b']], ['topic', 'test', '#a', 'x']]},
     # old witness of finding F10 (repaired): a NICK change differing only in case erased the hostmask
     {'op': 'hist', 'mp': True, 'uh': False, 'acts': [['connect', 'Foo', 'u', 'h'], ['join', 'test', ['#a']], ['join', 'Foo', ['#a']],
                                                     ['nick', 'Foo', 'foo']]},
